@@ -64,6 +64,11 @@ func corpus() []Case {
 			{Txs: []TxSpec{dep(0, "300000", "st-b", 1, "st-b")}},
 			{Txs: []TxSpec{{Kind: "reuse", Reuse: &Ref{Step: 0, Tx: 0}}}},
 		}},
+		{Name: "corpus-ghost-key-of-a-finalized-output-reused", Steps: []StepSpec{
+			{Txs: []TxSpec{dep(0, "10", "gk-a", 0, "gk-a")}},
+			{Txs: []TxSpec{dep(0, "20", "gk-b", 0, "gk-a"), dep(0, "5", "gk-c", 1, "gk-c")}}, // same seed, same receiver: same one-time key
+			{Txs: []TxSpec{{Kind: "reuse", Reuse: &Ref{Step: 1, Tx: 1}}}},
+		}},
 		{Name: "corpus-mint-then-deposits", Steps: []StepSpec{
 			{Direct: true, Txs: []TxSpec{{Kind: "mint", Asset: 0, Amount: "5000", Batch: 1, Outs: []OutSpec{{Type: "script", Amount: "5000", To: 0, Seed: "mint-a"}}}}},
 			{Txs: []TxSpec{dep(0, "100", "mt-a", 0, "mt-a"), dep(2, "59999", "mt-b", 1, "mt-b")}},
